@@ -188,7 +188,7 @@ class USBDeviceHandle(object):
 
 
 class USBDevice(object):
-    def __init__(self, serial="SER123", bus=1, ports=(2, 3), adb=True, kernel_driver=False):
+    def __init__(self, serial="SER123", bus=1, ports=(2, 3), adb=True, kernel_driver=False, fastboot_first=False):
         self.serial = serial
         self.bus = bus
         self.ports = list(ports)
@@ -199,6 +199,9 @@ class USBDevice(object):
         self.errors = {}            # index among bulk transfers -> exception class
         eps = [USBEndpoint(EP_IN), USBEndpoint(EP_OUT)]
         self.settings = [USBInterfaceSetting(0, 0x08, 0x06, 0x50, [USBEndpoint(0x82), USBEndpoint(0x02)])]
+        if fastboot_first:
+            # a composite device: a fastboot-style interface (same class ff / subclass 42, protocol 3) is listed before the ADB one (protocol 1)
+            self.settings.append(USBInterfaceSetting(1, CLASS_VENDOR_SPEC, 0x42, 0x03, [USBEndpoint(0x83), USBEndpoint(0x03)]))
         if adb:
             self.settings.append(USBInterfaceSetting(IFACE, CLASS_VENDOR_SPEC, 0x42, 0x01, eps))
         self.handles = []
